@@ -56,9 +56,37 @@ def one(name, checks, tier):
     return res
 
 
+RELATED = {
+    "trie/hexary.py": ["C01", "C02", "C03", "C04", "C05", "C06", "C07", "C08", "C09", "C10", "C18"],
+    "trie/utils/db.py": ["C17", "C04", "C05", "C06", "C01"],
+    "trie/fog.py": ["C11", "C09", "C10", "C18"],
+    "trie/iter.py": ["C10"],
+    "trie/exceptions.py": ["C08", "C09", "C07", "C10"],
+    "trie/utils/nodes.py": ["C16", "C08", "C09", "C10", "C12", "C13", "C01", "C02"],
+    "trie/utils/nibbles.py": ["C16", "C01", "C02", "C11"],
+    "trie/binary.py": ["C12", "C13", "C18"],
+    "trie/branches.py": ["C13", "C18"],
+    "trie/smt.py": ["C14", "C15", "C18"],
+    "trie/utils/binaries.py": ["C16", "C12", "C13"],
+    "trie/typing.py": ["C18", "C11", "C08"],
+    "trie/validation.py": ["C18", "C01", "C12", "C14"],
+}
+
+
+def related(name):
+    out = []
+    for line in open(os.path.join(SEEDED, name, "patch.diff")):
+        if line.startswith("+++ b/"):
+            for c in RELATED.get(line[6:].strip(), ALL):
+                if c not in out:
+                    out.append(c)
+    return sorted(out)
+
+
 def main():
     args = sys.argv[1:]
     allc = "--all-checks" in args
+    rel = "--related" in args
     tier = "quick"
     if "--tier" in args:
         tier = args[args.index("--tier") + 1]
@@ -68,7 +96,7 @@ def main():
     jobs = []
     for n in names:
         meta = json.load(open(os.path.join(SEEDED, n, "meta.json")))
-        checks = ALL if allc else meta.get("run_checks") or [meta["property"]]
+        checks = ALL if allc else (related(n) if rel else (meta.get("run_checks") or [meta["property"]]))
         jobs.append((n, checks))
     results = {}
     path = os.path.join(SEEDED, "RESULTS.json")
